@@ -695,7 +695,8 @@ def region0(fn, ns, xs):
         if abs(s) < 1.49012e-08:
             return "|s|<sqrt(eps)", "s~0"
         if s < 0:
-            return ("reflect:logs" if 1 - s > 21 else "reflect:gamma"), ("s<=-250" if s <= -250 else "-250<s<-100" if s < -100 else "-100<=s<0")
+            # Boost switches to the log form at 1-s > 170; the port did at 1-s > 21 (length of its factorial table)
+            return ("reflect:1-s<=21" if 1 - s <= 21 else "reflect:21<1-s<=170" if 1 - s <= 170 else "reflect:1-s>170"), ("s<=-250" if s <= -250 else "-250<s<0")
         for hi in (1, 2, 4, 7, 15, 36, 56):
             if s <= hi:
                 return "prec:s<=%d" % hi, "s>0"
